@@ -16,8 +16,8 @@ PROPERTY = "C13"
 RULE = (
     "E1 product enumeration via a real evaluator step in a Plan with a tracker: per variable (V=2, all 12x12 assignments) "
     "bound kind {both, lower only, upper only, none} x value position {below, at lower, inside, at upper, above}; "
-    "linear row 0 kind {eq, lower, upper, two-sided, unbounded} x position (17 settings incl. values outside a bound by a relative 2^-20, row 1 cycled); non-linear "
-    "constraint 0 kind x position (15 settings, constraint 1 cycled); transforms {none, variable+constraint+objective scalers, offsets-only variable scaler, constraint scaler only (thorough: also scales-only and a second set)}; "
+    "linear row 0 kind {eq, lower, upper, two-sided, unbounded} x position (19 settings incl. values outside a bound by a relative 2^-20 and 2^-30, row 1 cycled); non-linear "
+    "constraint 0 kind x position (19 settings, constraint 1 cycled); transforms {none, variable+constraint+objective scalers, offsets-only variable scaler, constraint scaler only (thorough: also scales-only and a second set)}; "
     "tracker tolerance {1e-10, None, 0.0, 0.5}. Oracle: IEEE formulas value-lower, value-upper, max(lower-value, value-upper, 0); "
     "bound information present whenever any variable bound is finite; tracker holds the result iff all violations <= tol; for one tolerance the evaluation is repeated with the realization failing: the result without functions still reports exact bound and linear differences. "
     "Beyond the 2x2x2 shape: spot instances with 5 variables, a non-square 3x5 linear matrix, 4 non-linear constraints, 3 weighted realizations and a batch of 3 different points, "
@@ -28,14 +28,14 @@ ASSUMPTIONS = [
     "dyadic values; 1e-9 relative tolerance on differences (scalers introduce rounding)",
     "with transforms the tracker tolerance is only judged for tolerances (None, 0.0, 1e-10) where user- and optimizer-domain verdicts coincide",
 ]
-BOUNDS = {"quick": "144 variable settings x 17 linear x 17 non-linear x transforms on/off; + 36 wide spot instances (5 vars, 3x5 linear, 4 non-linear, batch of 3)", "thorough": "same x second transform set x 3 tolerances; + 144 wide spot instances"}
+BOUNDS = {"quick": "144 variable settings x 19 linear x 19 non-linear x transforms on/off; + 36 wide spot instances (5 vars, 3x5 linear, 4 non-linear, batch of 3)", "thorough": "same x second transform set x 3 tolerances; + 144 wide spot instances"}
 
 VAR_SETTINGS = []
 for kind, positions in (("both", 5), ("lower", 3), ("upper", 3), ("none", 1)):
     for pos in range(positions):
         VAR_SETTINGS.append((kind, pos))
 CON_SETTINGS = []
-for kind, positions in (("eq", 3), ("lower", 3), ("upper", 3), ("two", 5), ("free", 1), ("lower-near", 1), ("upper-near", 1)):
+for kind, positions in (("eq", 3), ("lower", 3), ("upper", 3), ("two", 5), ("free", 1), ("lower-near", 1), ("upper-near", 1), ("lower-tiny", 1), ("upper-tiny", 1)):
     for pos in range(positions):
         CON_SETTINGS.append((kind, pos))
 
@@ -70,6 +70,11 @@ def con_bounds(kind: str, pos: int, value: float) -> tuple[float, float]:
         return value + 2.0**-20 * (1.0 + abs(value)), np.inf
     if kind == "upper-near":
         return -np.inf, value - 2.0**-20 * (1.0 + abs(value))
+    # ... and by 2**-30 (about 1e-9, below any absolute "is close" default): still a positive violation, infeasible at 1e-10
+    if kind == "lower-tiny":
+        return value + 2.0**-30 * (1.0 + abs(value)), np.inf
+    if kind == "upper-tiny":
+        return -np.inf, value - 2.0**-30 * (1.0 + abs(value))
     return -np.inf, np.inf
 
 
